@@ -438,7 +438,11 @@ func symUnop(fr *frame, op token.Token, x sym) value {
 func symConvScalar(fr *frame, dst types.BasicKind, x sym) value {
 	c := fr.i.run.ctx
 	switch dst {
-	case types.Float32, types.Float64, types.Complex64, types.Complex128:
+	case types.Float64:
+		// float64(int) is kept as an exact integer-valued symbolic float; only the
+		// pattern floor(float64(a)/float64(b)) -> int is supported beyond that
+		return symFloat{num: c.Resize(x.t, 64, kindSigned(x.k))}
+	case types.Float32, types.Complex64, types.Complex128:
 		// floats are not modelled: concretise (forks over feasible values)
 		v := fr.i.run.concretize(x, "int->float")
 		return conv(types.Typ[dst], types.Typ[x.k], v)
@@ -540,4 +544,24 @@ func (r *pathRun) runeBytes(x sym) []value {
 		return []value{byteOf(0xF0, 18, 0x07), byteOf(0x80, 12, 0x3F), byteOf(0x80, 6, 0x3F), byteOf(0x80, 0, 0x3F)}
 	}
 	return bad
+}
+
+// symFloat is a symbolic float64 of one of three shapes: an integer value
+// (den == nil), a quotient num/den of two integer values, or the floor of such
+// a quotient (floored). Enough for math.Floor(float64(a) / float64(b)).
+type symFloat struct {
+	num, den *Term
+	floored  bool
+}
+
+func (r *pathRun) floatToTermInt(f symFloat) *Term {
+	c := r.ctx
+	switch {
+	case f.den == nil:
+		return f.num
+	case f.floored:
+		return c.Bin(OpFloor, f.num, f.den)
+	}
+	// Go's float->int conversion truncates towards zero
+	return c.Bin(OpSDiv, f.num, f.den)
 }
